@@ -28,20 +28,15 @@ def run(F, tier, res):
     paint_fns = {eval(x)[0] for x in N['event_sites'].get('PAINT_LB', [])} if N['event_sites'].get('PAINT_LB') else set()
     reaches_paint = F.reverse_reaching(paint_fns)
     n = ok = 0
-    for hl in hlhs:
-        blocks = F.blocks(hl)
-        dom = F.dominators(hl)
-        pushes = []
-        for i, c in F.calls(hl):
-            if callee_of(c).endswith('::push') and c['args']:
-                for r in F.trace(hl, c['args'][0]):
-                    if r[0] == 'param' and r[2] and r[2][-1] in ('minus_lines', 'plus_lines'):
-                        pushes.append((i, r[2][-1]))
-        paints = [i for i, c in F.calls(hl) if callee_of(c) in reaches_paint]
+    from ..facts import reach
+    from .c20 import _find_binop_rvalue
+
+    def buffer_guards(fn):
+        """{buffer: [(switch_bb, exceeds_target, notexceeds_target)]} for comparisons of a subhunk buffer's len() with line_buffer_size"""
         guards = {}
-        for (sb, op, arms, other) in Ru.switches(F, hl):
-            roots = F.trace(hl, op)
-            cmpop = [r[1] for r in roots if r[0] == 'binop' and r[1] in ('Gt', 'Ge', 'Lt', 'Le')]
+        for (sb, op, arms, other) in Ru.switches(F, fn):
+            roots = F.trace(fn, op)
+            cmpop = [r for r in roots if r[0] == 'binop' and r[1] in ('Gt', 'Ge', 'Lt', 'Le')]
             lens = [r for r in roots if r[0] == 'call' and r[1].endswith('::len')]
             lim = any(r[0] == 'param' and r[2] and r[2][-1] == 'line_buffer_size' for r in roots)
             if not (cmpop and lens and lim):
@@ -49,37 +44,54 @@ def run(F, tier, res):
             which = set()
             for r in lens:
                 for a in r[4]['args'][:1]:
-                    for rr in F.trace(hl, a):
+                    for rr in F.trace(fn, a):
                         if rr[0] == 'param' and rr[2] and rr[2][-1] in ('minus_lines', 'plus_lines'):
                             which.add(rr[2][-1])
-            # which edge is taken when len is large?
-            from .c20 import _find_binop_rvalue
-            rv = _find_binop_rvalue(F, hl, op)
+            if len(which) != 1:
+                # a value that may be the length of either buffer (e.g. selected by a condition) bounds neither of them
+                continue
+            rv = _find_binop_rvalue(F, fn, op)
             if rv is None:
                 continue
-            len_left = any(r[0] == 'call' and r[1].endswith('::len') for r in F.trace(hl, rv[2]))
+            len_left = any(r[0] == 'call' and r[1].endswith('::len') for r in F.trace(fn, rv[2]))
             big = {'Gt': True, 'Ge': True, 'Lt': False, 'Le': False}[rv[1]]
             if not len_left:
                 big = not big
-            if Ru.negations(F, hl, op) % 2:
+            if Ru.negations(F, fn, op) % 2:
                 big = not big
             tt, ft = Ru.bool_edges(arms, other)
-            exceeds = tt if big else ft
-            notexceeds = ft if big else tt
             for w in which:
-                guards.setdefault(w, []).append((sb, exceeds, notexceeds))
-        from ..facts import reach
+                guards.setdefault(w, []).append((sb, tt if big else ft, ft if big else tt))
+        return guards
+
+    def unsafe_reach(fn, buffer, extra_safe=()):
+        """blocks reachable from entry without the buffer having been painted or found within the limit"""
+        gs = buffer_guards(fn).get(buffer, [])
+        paints_ = {i for i, c in F.calls(fn) if callee_of(c) in reaches_paint} | set(extra_safe)
+        cut = {(sb, ne) for (sb, ex, ne) in gs if ne is not None}
+        S2 = {b_: [x for x in ss if (b_, x) not in cut] for b_, ss in F.cfg(fn).items()}
+        return reach(S2, 0, avoid=paints_), bool(gs)
+
+    def is_guarding_helper(fn, buffer):
+        """a helper that, on every path to its return, has painted the buffers or established len <= limit"""
+        if fn not in F.fn_bodies:
+            return False
+        r, has = unsafe_reach(fn, buffer)
+        return has and not any(x in r for x in Ru.returns(F, fn))
+    for hl in hlhs:
+        blocks = F.blocks(hl)
+        pushes = []
+        for i, c in F.calls(hl):
+            if callee_of(c).endswith('::push') and c['args']:
+                for r in F.trace(hl, c['args'][0]):
+                    if r[0] == 'param' and r[2] and r[2][-1] in ('minus_lines', 'plus_lines'):
+                        pushes.append((i, r[2][-1]))
         for (pb, fld) in pushes:
             n += 1
-            gs = guards.get(fld, [])
-            # a bad path reaches the push without passing a paint call and without having taken the "does not exceed" edge of a
-            # guard on this buffer
-            S2 = {}
-            cut = {(sb, ne) for (sb, ex, ne) in gs if ne is not None}
-            for b_, ss in F.cfg(hl).items():
-                S2[b_] = [x for x in ss if (b_, x) not in cut]
-            r = reach(S2, 0, avoid=set(paints))
-            good = bool(gs) and pb not in r
+            helpers = {i for i, c in F.calls(hl) if callee_of(c) in F.fn_bodies and callee_of(c) not in reaches_paint - {callee_of(c)} and is_guarding_helper(callee_of(c), fld)}
+            helpers |= {i for i, c in F.calls(hl) if is_guarding_helper(callee_of(c), fld)}
+            r, has = unsafe_reach(hl, fld, extra_safe=helpers)
+            good = (has or bool(helpers)) and pb not in r
             if good:
                 ok += 1
             else:
